@@ -7,7 +7,7 @@ Mirrors `pox/core.py` (line numbers of the pinned tree):
                                    **remove, then call**, `try/except` around the call = frame `cbEnd`)
 * frames `pass snap changed`     — `_try_waiters` 572-582: `while changed: changed = False; for entry in list(self._waiters)`
 * `stepAct .listen`, `notifyIfUp`— `listen_to_dependencies` 584-654 (the waiter it declares, then `_waiter_notify` if not starting up);
-                                   `handlerComponent`/`listenDeps`/`boundEvent` mirror 614-618 and `revent.autoBindEvents` 531,552-555
+                                   `handlerComponentL`/`listenDepsL`/`boundEventL`/`wiringL`/`sinkAttrNames` mirror 614-618, 634-647 and `revent.autoBindEvents` 531,552-555
 * `waiterNotify`                 — `_waiter_notify` 446-459
 * `goUpStart`, `goUpCont`        — `goUp` 410-416;  `enterStage2`, `stage2Cont` — `_goUp_stage2` 437-441
 * `.getDeferral`, `.release`     — `_get_go_up_deferral` 418-435
@@ -247,38 +247,86 @@ def execMarks (P : Prog) (fuel : Nat) : List Op → M → List Nat → Option (M
     | [] => execMarks P fuel os m' (marks ++ [m'.core.log.length])
     | _ :: _ => none
 
-/-! ### listener wiring of `listen_to_dependencies` (strings; used by the driver, compared with the real sinks) -/
+/-! ### listener wiring of `listen_to_dependencies` (lines 607-618, 634-647 and `revent.autoBindEvents` 531, 552-555)
 
-/-- lines 614-618: `_handle_<component>_<Event>` ↦ component -/
-def handlerComponent (attr : String) : Option String :=
-  if attr.startsWith "_handle_" then
-    let parts := attr.splitOn "_"
-    if parts.length < 4 then none                       -- c.count("_") < 3
-    else some ("_".intercalate ((parts.drop 2).dropLast))
+Names are character lists (`Str`) so that the parsing and binding rules have theorems (`Properties/C08.lean`: `handler_names_component`,
+`handler_binds_event`, `wiring_exact`, `wiring_once`, `handler_wired`); the `String` versions below only convert, for the driver. -/
+
+/-- Python's `s.split("_")` -/
+def splitU : List Char → List (List Char)
+  | [] => [[]]
+  | c :: cs =>
+    match splitU cs with
+    | [] => [[]]
+    | w :: ws => if c = '_' then [] :: w :: ws else (c :: w) :: ws
+
+/-- Python's `"_".join(ws)` -/
+def joinU : List (List Char) → List Char
+  | [] => []
+  | [w] => w
+  | w :: w' :: ws => w ++ '_' :: joinU (w' :: ws)
+
+def handlePrefix : List Char := ['_', 'h', 'a', 'n', 'd', 'l', 'e', '_']
+
+/-- core.py 614-618 on character lists -/
+def handlerComponentL (attr : List Char) : Option (List Char) :=
+  if handlePrefix.isPrefixOf attr then
+    let parts := splitU attr
+    if parts.length < 4 then none else some (joinU ((parts.drop 2).dropLast))
   else none
 
-def dedupS : List String → List String
+/-- revent.autoBindEvents 531: `if len(prefix) > 0 and prefix[0] != '_': prefix = '_' + prefix` -/
+def bindPrefixL : List Char → List Char
   | [] => []
-  | a :: as => if (dedupS as).contains a then dedupS as else a :: dedupS as
+  | ch :: cs => if ch = '_' then ch :: cs else '_' :: ch :: cs
 
-/-- the component set `listen_to_dependencies` waits for -/
-def listenDeps (explicit attrs : List String) : List String :=
-  dedupS (explicit ++ attrs.filterMap handlerComponent)
+/-- revent.autoBindEvents 552-553 -/
+def boundEventL (c attr : List Char) : Option (List Char) :=
+  let p := ['_', 'h', 'a', 'n', 'd', 'l', 'e'] ++ bindPrefixL c ++ ['_']
+  if p.isPrefixOf attr then some (attr.drop p.length) else none
 
-/-- `autoBindEvents(sink, source, prefix=c)`: the event name a handler attribute is bound to (if the source raises it) -/
-def boundEvent (c attr : String) : Option String :=
-  let pre := if c.length > 0 && c.front != '_' then "_" ++ c else c
-  let p := "_handle" ++ pre ++ "_"
-  if attr.startsWith p then some (attr.drop p.length).copy else none
+/-- the attribute named `_handle_<c>_<e>` -/
+def handlerName (c e : List Char) : List Char := handlePrefix ++ c ++ '_' :: e
 
-/-- `done`: listeners added when the sink's waiter fires: (attribute, component, event) -/
-def wiring (deps attrs : List String) (events : String → Option (List String)) : List (String × String × String) :=
+def dedupG {α} [DecidableEq α] : List α → List α
+  | [] => []
+  | a :: as => if a ∈ dedupG as then dedupG as else a :: dedupG as
+
+abbrev Str := List Char
+
+/-- the component set `listen_to_dependencies` waits for (607-618) -/
+def listenDepsL (explicit attrs : List Str) : List Str :=
+  dedupG (explicit ++ attrs.filterMap handlerComponentL)
+
+/-- `done` (642-646): listeners added when the sink's waiter fires: (attribute, component, event) -/
+def wiringL (deps attrs : List Str) (events : Str → Option (List Str)) : List (Str × Str × Str) :=
   deps.flatMap fun c =>
     match events c with
-    | none => []                                         -- no `_eventMixin_events`
+    | none => []
     | some evs => attrs.filterMap fun a =>
-        match boundEvent c a with
-        | some ev => if evs.contains ev then some (a, c, ev) else none
+        match boundEventL c a with
+        | some ev => if ev ∈ evs then some (a, c, ev) else none
         | none => none
+
+/-- `done` (635-641): names of the attributes set on the sink -/
+def sinkAttrNames (setAttrs short : Bool) (deps : List Str) : List Str :=
+  if setAttrs || short then deps.map (fun c => if short then c else '_' :: (c ++ ['_'])) else []
+
+/-! string front end used by the driver -/
+
+def handlerComponent (attr : String) : Option String := (handlerComponentL attr.toList).map String.ofList
+
+def listenDeps (explicit attrs : List String) : List String :=
+  (listenDepsL (explicit.map String.toList) (attrs.map String.toList)).map String.ofList
+
+def boundEvent (c attr : String) : Option String := (boundEventL c.toList attr.toList).map String.ofList
+
+def wiring (deps attrs : List String) (events : String → Option (List String)) : List (String × String × String) :=
+  (wiringL (deps.map String.toList) (attrs.map String.toList)
+      (fun c => (events (String.ofList c)).map (fun evs => evs.map String.toList))).map
+    fun (a, c, e) => (String.ofList a, String.ofList c, String.ofList e)
+
+def sinkAttrs (setAttrs short : Bool) (deps : List String) : List String :=
+  (sinkAttrNames setAttrs short (deps.map String.toList)).map String.ofList
 
 end Pox.Core
